@@ -33,6 +33,40 @@ type Op struct {
 type Case struct {
 	Size int  `json:"size"`
 	Ops  []Op `json:"ops"`
+	// large-table leg: the operations are derived from these (see bigOps)
+	BigMB   int    `json:"big_mb,omitempty"`
+	BigKeys int    `json:"big_keys,omitempty"`
+	Salt    uint64 `json:"salt,omitempty"`
+}
+
+// bigOps: resize a 1 MiB table to mb MiB and clear it (what `setoption name Hash` + `ucinewgame` do), store k keys
+// spread evenly over the whole bucket range, probe them, clear, probe them again (nothing may have survived),
+// then store shallow bounds without a move under the same keys in a new search and probe once more.
+func bigOps(mb, k int, salt uint64) []Op {
+	ops := []Op{{Kind: "resize", Size: mb << 20}}
+	step := uint64(1<<32) / uint64(k)
+	keys := make([]uint64, k)
+	for j := range keys {
+		low := uint64(j)*step + salt%step
+		keys[j] = uint64(j%0xfffe+1)<<48 | (salt>>8&0xffff)<<32 | low
+	}
+	for j, key := range keys {
+		ops = append(ops, Op{Kind: "store", Key: key, Depth: 20 + j%40, Ply: j % 64, Move: 1 + j%30000, Value: j%2000 - 1000, Type: j % 3})
+	}
+	for _, key := range keys {
+		ops = append(ops, Op{Kind: "probe", Key: key, Ply: 3})
+	}
+	ops = append(ops, Op{Kind: "clear"})
+	for _, key := range keys {
+		ops = append(ops, Op{Kind: "probe", Key: key, Ply: 3})
+	}
+	for j, key := range keys {
+		ops = append(ops, Op{Kind: "store", Key: key, Depth: 1, Ply: j % 64, Value: j%200 - 100, Type: 1 + j%2})
+	}
+	for _, key := range keys {
+		ops = append(ops, Op{Kind: "probe", Key: key, Ply: 5})
+	}
+	return ops
 }
 
 type slot struct {
@@ -298,6 +332,9 @@ func checkCase(c Case, rec *evid.Rec) (err error) {
 	}()
 	w := &world{t: transp.New(c.Size), model: map[slot]*ment{}, zero: map[int][]ment{}, judged: true, rec: rec}
 	keys := map[slot]uint64{}
+	if c.BigMB > 0 {
+		c.Ops = bigOps(c.BigMB, c.BigKeys, c.Salt)
+	}
 	for i, op := range c.Ops {
 		if err := w.apply(op, keys); err != nil {
 			return fmt.Errorf("op %d %+v (table of %d buckets, generation %d): %v", i, op, w.t.VerifBuckets(), w.gen, err)
@@ -361,7 +398,7 @@ func lanes(w uint64, key uint16) (int, bool) {
 func TestC15(t *testing.T) {
 	evid.Main(t, "C15", func(rec *evid.Rec) {
 		rec.Note("signature bits of a key, learnt from a one-bucket table: %v", sigBits())
-		rec.Rule("model-based sequences (<=250 ops) of store / probe / clear / resize-then-clear / resize-without-clear / new-search (8 bit generation wraps) on tables of 1, 2, 3, 32, 1024 and 32768 buckets; keys from a pool built to collide: 8 low words x 9 signatures (incl. 0, 1, 0x7fff, 0x8000, 0xffff) x 4 middle words, so same-bucket/different-signature, same-signature/different-bucket and indistinguishable aliases all occur; depth 0..63, ply 0..63, three bound types, null and non-null moves, values over the whole range with weight on 0, the band just inside +-(Inf-MaxPlies) and the mate bands (for the two exact boundary values either consistent reading - re-based or not - is accepted). Model: map (bucket index via hook, signature) -> last accepted store with keep-deeper refusal and kept move; after every store every modelled slot of the bucket is probed: hits equal the model (mate values re-based), at most one other slot vanished, the stored slot hits; probes of unmodelled non-zero signatures must miss. Zero signatures: only 'immediate probe hits and reflects the store (or the deeper same-search entry)' and 'hits return something stored under a zero signature or the empty entry'. After resize without clear nothing is judged but panics. Lane matcher checked directly against a four-lane loop. Non-trivial = sequence with an eviction, a keep-deeper refusal, a kept move or a re-based mate value; distinct by sequence")
+		rec.Rule("model-based sequences (<=250 ops) of store / probe / clear / resize-then-clear / resize-without-clear / new-search (8 bit generation wraps) on tables of 1, 2, 3, 32, 1024 and 32768 buckets; keys from a pool built to collide: 8 low words x 9 signatures (incl. 0, 1, 0x7fff, 0x8000, 0xffff) x 4 middle words, so same-bucket/different-signature, same-signature/different-bucket and indistinguishable aliases all occur; depth 0..63, ply 0..63, three bound types, null and non-null moves, values over the whole range with weight on 0, the band just inside +-(Inf-MaxPlies) and the mate bands (for the two exact boundary values either consistent reading - re-based or not - is accepted). Model: map (bucket index via hook, signature) -> last accepted store with keep-deeper refusal and kept move; after every store every modelled slot of the bucket is probed: hits equal the model (mate values re-based), at most one other slot vanished, the stored slot hits; probes of unmodelled non-zero signatures must miss. Zero signatures: only 'immediate probe hits and reflects the store (or the deeper same-search entry)' and 'hits return something stored under a zero signature or the empty entry'. After resize without clear nothing is judged but panics. Large tables: a 1 MiB table resized to 2..48 MiB (thorough: ..320 MiB, any whole number), cleared, filled with 1500 keys spread evenly over the whole bucket range, probed, cleared, probed again (nothing may survive a clear), re-filled with shallow bounds without a move, probed. Lane matcher checked directly against a four-lane loop. Non-trivial = sequence with an eviction, a keep-deeper refusal, a kept move or a re-based mate value; distinct by sequence")
 		rec.Assume("hooks transp.VerifBucketIx / VerifBuckets / VerifMatch64 (build tag verif) only read; victim choice is left free as in the property")
 		rec.Rapid(t, "sequence", evid.Pick(80000, 1500000), func(t *rapid.T) {
 			c := Case{Size: sizes[gen.Draw(t, 0, len(sizes)-1, "size")]}
@@ -404,6 +441,15 @@ func TestC15(t *testing.T) {
 				rec.Fail("sequence", err.Error(), c)
 				t.Fatalf("%v", err)
 			}
+		})
+		// every table size the Hash option offers must be cleared completely and usable over its whole range
+		rec.Rapid(t, "large_tables", evid.Pick(3, 40), func(t *rapid.T) {
+			c := Case{Size: 1 << 20, BigMB: gen.Draw(t, 2, evid.Pick(48, 320), "mb"), BigKeys: 1500, Salt: uint64(gen.Draw(t, 0, 1<<30, "salt"))}
+			if err := checkCase(c, rec); err != nil {
+				rec.Fail("large_tables", err.Error(), c)
+				t.Fatalf("%v", err)
+			}
+			rec.Class("table_of_2..48_MiB_or_more_resized_cleared_and_used_over_its_whole_range")
 		})
 		rec.Rapid(t, "match64", evid.Pick(1000000, 20000000), func(t *rapid.T) {
 			var w uint64
